@@ -1000,6 +1000,65 @@ class C14F(FMonitor):
                     self.t_ready.setdefault(it.id, led.env.now)
 
 
+class C12F(FMonitor):
+    """whole factories, necessary conditions only (wall-clock): on every conveyor of the configuration items leave in entry order,
+    never less than one slot time / one item length of travel after the previous entry, never sooner than the belt's travel time
+    after their own entry, and never more of them than the belt's capacity (geometry taken from the configuration, not from the
+    edge object)"""
+    prop = "C12"
+
+    def __init__(self, led):
+        import math
+        self.seen = 0
+        self.last_put = {}
+        self.t_put = {}
+        self.order = collections.defaultdict(list)
+        self.geo = {}
+        for ed in led.cfg["edges"]:
+            if ed["t"] == "sconv":
+                tau = ed.get("delay", 1)
+                self.geo[ed["id"]] = (tau, ed.get("cap", 2) * tau, ed.get("cap", 2), True, "sconv")
+            elif ed["t"] == "cconv":
+                il, sp, cl = ed.get("ilen", 1), ed.get("speed", 1), ed.get("clen", 2)
+                self.geo[ed["id"]] = (il / sp, cl / sp, int(math.ceil(cl) / il), abs(cl / il - round(cl / il)) < 1e-9, "cconv")
+
+    def on_step(self, led):
+        for (t, kind, eid, nid, iid, x) in led.events[self.seen:]:
+            g = self.geo.get(eid)
+            if g is None:
+                continue
+            tau, T, cap, mult, ck = g
+            e = led.edges[eid]
+            if kind == "put":
+                prev = self.last_put.get(eid)
+                if prev is not None and t - prev[0] < tau - EPS:
+                    used = [k for k in led.tokens if k.edge is e and k.side == "p" and k.status == "used" and k.t_end is not None and abs(k.t_end - t) < EPS]
+                    pre = any(k.t_grant is not None and k.t_grant <= prev[0] + EPS for k in used)
+                    led.V("C12", "entry-spacing", "%s entered %s at %s, %s entered at %s: %.6g apart, one %s is %.6g"
+                          % (prev[1], eid, prev[0], iid, t, t - prev[0], "slot time" if ck == "sconv" else "item length of travel", tau),
+                          conv=ck, factory=True, reservation_predates_previous_entry=pre, length_multiple_of_item=mult)
+                self.last_put[eid] = (t, iid)
+                self.t_put[(eid, iid)] = t
+                self.order[eid].append(iid)
+            elif kind == "get":
+                o = self.order[eid]
+                if o and o[0] != iid and iid in o:
+                    led.V("C12", "leave-in-entry-order", "%s left %s while %s, which entered earlier, is still on it" % (iid, eid, o[0]),
+                          conv=ck, factory=True)
+                if iid in o:
+                    o.remove(iid)
+                tp = self.t_put.pop((eid, iid), None)
+                if tp is not None and t - tp < T - EPS:
+                    led.V("C12", "minimum-travel-time", "%s entered %s at %s and left at %s: %.6g, the belt's travel time is %.6g"
+                          % (iid, eid, tp, t, t - tp, T), conv=ck, factory=True, length_multiple_of_item=mult)
+        self.seen = len(led.events)
+        for eid, (tau, T, cap, mult, ck) in self.geo.items():
+            n = led.held(led.edges[eid])
+            if n > cap:
+                led.V("C12", "capacity", "%d items on %s, capacity %d" % (n, eid, cap), conv=ck, factory=True, length_multiple_of_item=mult)
+
+
+FMONITORS["C12"] = [C12F]
 FMONITORS["C01"] = [C01F]
 FMONITORS["C06"] = [C06F]
 FMONITORS["C14"] = [C14F]
